@@ -852,7 +852,14 @@ class Parent(Entity):  # A System, Zone, DhwZone or a UfhController
         elif child_id == FF:  # System
             assert isinstance(self, System)  # TODO: remove me?
             assert isinstance(child, UfhController | OutSensor)
-            pass
+            if (  # the schema (SCH_TCS_UFH) allows no more than three
+                isinstance(child, UfhController)
+                and child not in self.childs
+                and sum(isinstance(c, UfhController) for c in self.childs) >= 3
+            ):
+                raise exc.SystemSchemaInconsistent(
+                    f"{self} already has three UFH controllers (cannot add {child})"
+                )
 
         else:
             raise TypeError(
